@@ -209,7 +209,7 @@ FWD_SHAPE(Split) {
         "Could not split the axis " << dim_ << " with size "
         << total << " into " << n_ << " partitions.");
   }
-  xs.update_dim(dim_, span);
+  xs = shape_ops::slice(xs, dim_, 0, span);
   for (std::uint32_t i = 0; i < n_; ++i) {
     *y[i] = xs;
   }
